@@ -245,6 +245,7 @@ class Campaign:
         self.stats = collections.defaultdict(lambda: collections.Counter())
         self.samples = collections.defaultdict(list)
         self.sigcounts = collections.Counter()
+        self.restarts = []
         self.n = 0
 
     def launch(self, cmd, args, nshard, tag, traceout=False):
@@ -258,7 +259,7 @@ class Campaign:
             if traceout:
                 a += ["-traceout", os.path.join(self.root, "trace-%s-%d.ndjson" % (tag, s))]
             p = subprocess.Popen(a, stdout=subprocess.PIPE, stderr=subprocess.STDOUT, text=True,
-                                 preexec_fn=limit_child, env=common.env())
+                                 preexec_fn=limit_child, env=common.env({"GOMAXPROCS": "4"}))
             procs.append((p, a, out, work, cmd, tag, s))
         return procs
 
@@ -271,12 +272,24 @@ class Campaign:
                 p.kill()
                 p.communicate()
                 common.die_infra("walsim %s shard %d timed out" % (cmd, s))
-            done = self._read(out, cmd)
+            done = self._done(out)
+            if done and p.returncode == 0:
+                self._read(out, cmd)
             if p.returncode == 3:     # walsim's own infrastructure exit code (2 is the Go runtime's fatal error)
                 common.die_infra("walsim %s shard %d: %s" % (cmd, s, so[-2000:]))
             if p.returncode != 0 or not done:
                 self._died(a, out, work, cmd, s, p.returncode, so)
             shutil.rmtree(work, ignore_errors=True)
+
+    def _done(self, out):
+        if not os.path.exists(out):
+            return False
+        with open(out, "rb") as f:
+            f.seek(0, 2)
+            n = f.tell()
+            f.seek(max(0, n - 65536))
+            tail = f.read().decode("utf-8", "replace")
+        return '{"done":true' in tail
 
     def _read(self, out, cmd):
         done = False
@@ -309,14 +322,23 @@ class Campaign:
         """A reader killed the process (os.Exit / fatal runtime error / OOM): find the case with -trace."""
         shutil.rmtree(work, ignore_errors=True)
         p = subprocess.run(a + ["-trace"], stdout=subprocess.PIPE, stderr=subprocess.STDOUT, text=True,
-                           preexec_fn=limit_child, env=common.env(), timeout=1200)
+                           preexec_fn=limit_child, env=common.env({"GOMAXPROCS": "4"}), timeout=1200)
         last = None
         for line in p.stdout.splitlines():
             if line.startswith("BEGIN "):
                 last = line[6:]
         tailtxt = "\n".join(p.stdout.splitlines()[-15:])
-        if p.returncode == 0 or last is None:
-            common.die_infra("walsim %s shard %d died (rc=%s) but the traced re-run did not:\n%s" % (cmd, s, rc, so[-1500:]))
+        if p.returncode == 0:
+            # not reproducible: an environment hiccup (thread / memory limits on a loaded machine), not the code
+            # under test - the re-run's complete output replaces the dead worker's
+            m = re.search(r"(fatal error: [^\n]*|runtime: [^\n]*)", so)
+            self.restarts.append({"cmd": cmd, "shard": s, "rc": rc, "first_error": m.group(1) if m else so[:300]})
+            print("NOTE: walsim %s shard %d died (rc=%s: %s); the re-run completed normally and is used instead"
+                  % (cmd, s, rc, self.restarts[-1]["first_error"]), flush=True)
+            self._read(out, cmd)
+            return
+        if last is None:
+            common.die_infra("walsim %s shard %d died (rc=%s) before its first case:\n%s\n...\n%s" % (cmd, s, rc, so[:1200], so[-600:]))
         self.findings.append({"id": last, "class": "violation", "kind": "fatal", "campaign": cmd,
                               "detail": "the process running the real readers died (rc=%s) in case %s: %s" % (p.returncode, last, tailtxt[-600:]),
                               "sig": cmd + "/fatal", "scenario": {"cmd": a + ["-trace"], "case": last}})
@@ -622,6 +644,7 @@ def main():
                             "commit-only-hardstate": "implicit: a commit-only Save is not required to be durable (MustSync false)"},
         "ambiguity_samples": ambiguity_samples,
         "violation_witnesses_by_source": dict(by_source),
+        "worker_restarts": C.restarts,
         "divergences": int(ndiv),
         "divergence_signatures": dict(divergences),
         "skipped": dict(skips),
